@@ -141,10 +141,10 @@ def report(prop, args, results, known, seed, wall, all_ids):
         if r.get('kind') == 'finite':
             f = dict(id=r['id'], **r.get('finite', {}))
             finite.append(f)
-        clause_ids = []
+        clause_ids = {}
         for lab, cl in sorted(r['clauses'].items()):
             cid = "%s#%s" % (r['id'], lab)
-            clause_ids.append(lab)
+            clause_ids[lab] = cl['paths']
             if r.get('bounded'):
                 bounded.append(dict(id=cid, bound=r['bounded'], paths=cl['paths'],
                                     all_paths_ok=cl['discharged'] == cl['paths']))
@@ -187,6 +187,15 @@ def report(prop, args, results, known, seed, wall, all_ids):
             missing = [w for w in want if w not in got]
             if missing and not any(x[0]['id'] == oid for x in violations):
                 undecided.append("%s: clauses recorded in the ledger were not generated: %s" % (oid, missing))
+            # the ledger also records on how many paths each clause was evaluated on the pinned tree: a clause that is
+            # now evaluated on less than half of them has lost its coverage (e.g. a 'valid' request that is no longer
+            # valid), which must not pass silently
+            if isinstance(want, dict) and not any(x[0]['id'] == oid for x in violations):
+                thin = ["%s (%d -> %d paths)" % (w, n, got.get(w, 0)) for w, n in want.items()
+                        if w in got and n >= 4 and got[w] * 2 < n]
+                if thin:
+                    undecided.append("%s: clauses evaluated on far fewer paths than recorded in the ledger: %s" % (
+                        oid, ', '.join(thin[:4])))
 
     os.makedirs(os.path.join(ROOT, 'evidence'), exist_ok=True)
     os.makedirs(os.path.join(ROOT, 'replay', prop), exist_ok=True)
